@@ -59,8 +59,7 @@ func (s *Set) c02(w *simapi.Write, v *simapi.View) {
 		case w.Key.Kind == "Rollout" && (w.After == nil || simapi.Deleting(w.After)):
 			st.userRequest = true
 		case w.Key == s.S.WorkloadKey() && w.Before != nil && w.After != nil &&
-			(workloadImage(w.Before) != workloadImage(w.After) || simapi.Label(w.Before, "rollouts.kruise.io/rollout-id") != simapi.Label(w.After, "rollouts.kruise.io/rollout-id") ||
-				simapi.IntD(w.Before, "spec.replicas", 1) != simapi.IntD(w.After, "spec.replicas", 1)):
+			(workloadImage(w.Before) != workloadImage(w.After) || simapi.Label(w.Before, "rollouts.kruise.io/rollout-id") != simapi.Label(w.After, "rollouts.kruise.io/rollout-id")):
 			st.userRequest = true
 		}
 		return
@@ -128,7 +127,7 @@ func (s *Set) c02(w *simapi.Write, v *simapi.View) {
 		st.userRequest = false
 		return
 	}
-	epoch := simapi.Str(w.After, "status.canaryStatus.canaryRevision") + simapi.Str(w.After, "status.blueGreenStatus.updatedRevision") + "/" + simapi.Str(as, "observedRolloutID") + "/" + simapi.Str(as, "rolloutHash")
+	epoch := simapi.Str(w.After, "status.canaryStatus.canaryRevision") + simapi.Str(w.After, "status.blueGreenStatus.updatedRevision") + "/" + simapi.Str(as, "rolloutHash")
 	reasonB, _ := condReason(w.Before, "Progressing")
 	reasonA, _ := condReason(w.After, "Progressing")
 	if epoch != st.epoch || reasonA == "Initializing" {
@@ -141,7 +140,6 @@ func (s *Set) c02(w *simapi.Write, v *simapi.View) {
 	kb, ka := int(simapi.IntD(bs, "currentStepIndex", 0)), int(simapi.IntD(as, "currentStepIndex", 0))
 	sb, sa := simapi.Str(bs, "currentStepState"), simapi.Str(as, "currentStepState")
 	rolling := simapi.Str(w.After, "status.phase") == "Progressing" && reasonB == "InRolling" && (reasonA == "InRolling" || reasonA == "Finalising")
-	defer func() { st.userRequest = false }()
 	if !rolling {
 		return
 	}
@@ -149,6 +147,7 @@ func (s *Set) c02(w *simapi.Write, v *simapi.View) {
 	// evidence collection at sub-state exits
 	if kb == ka && sb == "StepUpgrade" && (sa == "StepTrafficRouting" || sa == "StepMetricsAnalysis") {
 		s.st03.exitReplicas[kb] = s.replicasNow(v)
+		s.st03.scaledSince = false
 		st.sawUpgrade[kb] = true
 		stp := s.stepSpec(kb)
 		R := s.replicasNow(v)
@@ -173,6 +172,17 @@ func (s *Set) c02(w *simapi.Write, v *simapi.View) {
 	}
 	s.count("c02_cursor_changes_checked", 1)
 	normal := (ka == kb+1 && sb == "StepReady") || (sa == "Completed" && sb == "StepReady" && ka == kb)
+	// a step jump stays pending in the persisted status (nextStepIndex differs from the natural successor) until the
+	// controller consumes it, possibly many reconciles after the user's patch
+	nsteps := len(s.rolloutSteps())
+	natural := int64(kb + 1)
+	if kb >= nsteps {
+		natural = -1
+	}
+	if nb := simapi.IntD(bs, "nextStepIndex", 0); nb > 0 && nb != natural {
+		st.userRequest = true
+	}
+	defer func() { st.userRequest = false }()
 	if st.userRequest && !normal {
 		s.addSet("c02_discharges", "user-request")
 		return // jump / plan edit / rollback / new revision / scale: the cursor may move
@@ -206,7 +216,6 @@ func (s *Set) c02(w *simapi.Write, v *simapi.View) {
 	}
 	// pause discharge
 	discharge := ""
-	nsteps := len(s.rolloutSteps())
 	switch {
 	case st.approved[kb]:
 		discharge = "approved"
